@@ -223,6 +223,11 @@ func runTAB02(p *Prog, r *RuleRun) {
 		v, ok := constU64(p, "segment", n)
 		r.Check(ok && v == want[n], "const:"+n, "?", fmt.Sprintf("%s = %d as documented", n, want[n]), fmt.Sprintf("frame type constant %s is %d (found=%v), README says %d: old files decode as the wrong frame kinds", n, v, ok, want[n]))
 	}
+	fhTyp, fhLen, fhCRC := frameHeaderFields(p)
+	if fhTyp == nil || fhLen == nil || fhCRC == nil {
+		r.Unknown("anchor:frame-header-fields", "?", "cannot resolve the type/length/CRC fields of the in-memory frame header")
+		return
+	}
 	wops := extractLayout(info, w.Body)
 	wbuf := w.Type.Params.List[0].Names[0].Name
 	wpos := p.Position(w.Pos())
@@ -273,7 +278,7 @@ func runTAB02(p *Prog, r *RuleRun) {
 			}
 			return true
 		})
-		r.Check(dflt == "field:len" && commit == "field:crc", "writer:word-by-type", wpos, "the word holds the CRC for commit frames and the length otherwise",
+		r.Check(fhLen != nil && fhCRC != nil && dflt == "field:"+fhLen.Name() && commit == "field:"+fhCRC.Name(), "writer:word-by-type", wpos, "the word holds the CRC for commit frames and the length otherwise",
 			fmt.Sprintf("the length/CRC word holds %q by default and %q for FrameCommit; README: length, and CRC for commit frames", dflt, commit))
 	} else {
 		r.Unknown("writer:word-by-type", wpos, "cannot tell which value is written into the length/CRC word")
@@ -479,17 +484,17 @@ func runTAB02(p *Prog, r *RuleRun) {
 	}
 	r.Check(accept && reject && !stray, "reader:zero-header", rpos, "type 0 is accepted only when the whole header is zero (end of written data)", "the reader does not distinguish an all-zero header (stop) from a zero type with other bytes set (corrupt)")
 	for _, tv := range []int64{1, 2, 3} {
-		word, other := "len", "crc"
+		word, other := fhLen.Name(), fhCRC.Name()
 		what := "entry/index frames: bytes 4..7 are the length"
 		if tv == 3 {
-			word, other = "crc", "len"
+			word, other = fhCRC.Name(), fhLen.Name()
 			what = "commit frames: bytes 4..7 are the CRC"
 		}
 		outs := run(tv, int64(hdrLen))
 		ok := len(outs) > 0
 		var got []string
 		for _, o := range outs {
-			if o.err || o.flds["typ"] != "buf[0]" || o.flds[word] != "LE32[4:8]" || (o.flds[other] != "" && o.flds[other] != "const") {
+			if o.err || o.flds[fhTyp.Name()] != "buf[0]" || o.flds[word] != "LE32[4:8]" || (o.flds[other] != "" && o.flds[other] != "const") {
 				ok = false
 			}
 			got = append(got, fmt.Sprintf("err=%v %v", o.err, o.flds))
